@@ -164,13 +164,13 @@ class Check:
     def _arm_watchdog(self):
         """A change to the implementation can make a call on some corpus input never return (e.g. a walk
         over a cyclic AST).  The harnesses bound individual calls where they can; this is the backstop:
-        after VERIF_WALL_LIMIT seconds (default 40 min quick, 8 h thorough) the check reports that the
+        after VERIF_WALL_LIMIT seconds (default 2 h quick, 12 h thorough: far above the minutes a check takes even on a loaded machine) the check reports that the
         property is no longer shown, kills its worker processes and exits 1."""
         import signal
         import threading
         if threading.current_thread() is not threading.main_thread():
             return
-        limit = int(os.environ.get("VERIF_WALL_LIMIT", "2400" if self.tier == "quick" else "28800"))
+        limit = int(os.environ.get("VERIF_WALL_LIMIT", "7200" if self.tier == "quick" else "43200"))
 
         def on_alarm(signum, frame):
             what = (f"the check did not complete within {limit} s of wall time: a call into the implementation "
@@ -225,7 +225,7 @@ class Check:
         """Regenerate coq/gen from /repo, build the model + driver and the given proof targets.
         Records one obligation per step.  Returns True if everything built."""
         with Lock():
-            rc, out = run(["make", "-s", "gen"], timeout=600)
+            rc, out = run(["make", "-s", "gen"], timeout=2400)
             try:
                 self.table_digests = json.load(open(os.path.join(BUILD, "gen.json")))
             except Exception:
